@@ -505,6 +505,89 @@ func runC03(c *Ctx) {
 		}
 	})
 
+	c.rule("C03.O5", "served checkpoint lists meet the hard-coded checkpoints first: in resolveConflict the comparison with the built-in checkpoints (chainsync.ValidateCFHeader over every entry of every served list) lies before the peers' lists are compared with each other (checkCFCheckptSanity) and before any list is returned: unanimous peers cannot get a false list through; the inner loop covers every entry of the list with the height (i+1)*interval", func() {
+		fn := c.fn(fnResolve)
+		vcf := c.funcObj("chainsync", "ValidateCFHeader")
+		sanity := c.funcObj("neutrino", "checkCFCheckptSanity")
+		calls := find(fn, callTo(vcf))
+		if len(calls) != 1 {
+			c.fail(c.nm(fn)+" | hard-coded checkpoint comparison", c.P.Pos(fn.Pos()), fmt.Sprintf("%d ValidateCFHeader call(s), 1 tabled", len(calls)))
+			return
+		}
+		// the loop over the served lists: the map range whose body contains the call
+		var outerNext ssa.Instruction
+		ir.Instrs(fn, func(in ssa.Instruction) {
+			n, ok := in.(*ssa.Next)
+			if !ok {
+				return
+			}
+			r, ok := n.Iter.(*ssa.Range)
+			if !ok || r.X != ssa.Value(fn.Params[1]) {
+				return
+			}
+			h := ir.LoopHeaderOf(in.Block())
+			if h == nil {
+				h = in.Block()
+			}
+			if ir.LoopBlocks(in.Block())[calls[0].Block()] || (h != nil && ir.LoopBlocks(h)[calls[0].Block()]) {
+				outerNext = in
+			}
+		})
+		if outerNext == nil {
+			c.fail(c.nm(fn)+" | hard-coded checkpoint comparison", c.P.Pos(fn.Pos()), "the ValidateCFHeader call is not inside a loop over the served checkpoint lists")
+			return
+		}
+		isOuter := func(in ssa.Instruction) bool { return in == outerNext }
+		c.mustPrecede(fn, isOuter, "the loop comparing served lists with the built-in checkpoints", callTo(sanity), "checkCFCheckptSanity", 1)
+		nonNilRet := func(in ssa.Instruction) bool {
+			r, ok := in.(*ssa.Return)
+			return ok && !ir.IsNil(ir.RetVal(r, 0))
+		}
+		c.mustPrecede(fn, isOuter, "the loop comparing served lists with the built-in checkpoints", nonNilRet, "return of a checkpoint list", 1)
+		// inner loop: every entry
+		h := ir.LoopHeaderOf(calls[0].Block())
+		isList := func(v ssa.Value) bool {
+			return ir.DerivesFrom(v, func(x ssa.Value) bool { return x == ssa.Value(outerNext.(*ssa.Next)) })
+		}
+		// tabled early exit: the list was thrown away (delete(checkpoints, peer)
+		// dominates the break)
+		discarded := func(e ir.Edge) bool {
+			del := mapDelete(isParam(fn, 1))
+			ok := true
+			ir.WalkEdge(e, nil, func(in ssa.Instruction) bool {
+				if del(in) {
+					return false
+				}
+				if in == outerNext || isExit(in) {
+					ok = false
+					return false
+				}
+				return true
+			})
+			return ok
+		}
+		c.fullRange(fn, h, "the loop over one served list", isList, 0, errSuccess, discarded)
+		// height argument = (i+1) * interval
+		lf := loopFormOf(h)
+		okH := false
+		hv := ir.Strip(argsOf(calls[0])[2])
+		if cv, ok := hv.(*ssa.Convert); ok {
+			hv = ir.Strip(cv.X)
+		}
+		{
+			if m, ok := hv.(*ssa.BinOp); ok && m.Op == token.MUL {
+				for _, pr := range [][2]ssa.Value{{m.X, m.Y}, {m.Y, m.X}} {
+					if d, ok := counterOffset(lf, pr[0]); ok && d == 1 {
+						if k, isC := ir.ConstInt(pr[1]); isC && k == 1000 {
+							okH = true
+						}
+					}
+				}
+			}
+		}
+		c.verdict(okH, c.nm(fn)+" | checkpoint height = (index+1) * CFCheckptInterval", c.at(calls[0]), "uint32((i+1)*wire.CFCheckptInterval)", "the height passed to ValidateCFHeader is not (index+1)*1000")
+	})
+
 	c.rule("C03.W1", "only the tabled functions write or roll back the filter-header store", func() {
 		c.whoMay("FilterHeaderStore.{WriteHeaders,RollbackLastBlock}", callTo(fhs("WriteHeaders"), fhs("RollbackLastBlock")), []string{
 			fnWriteCFH, fnRollBack,
